@@ -136,10 +136,10 @@ func (w *Workspace) RunFastDir(dir string, imp gotypes.Importer) (res *Result) {
 
 // normDiag makes diagnostics independent of the scratch directory's name.
 func normDiag(d, dir string) string {
-	d = strings.ReplaceAll(d, dir+"/", "")
 	if rel, err := filepath.Rel(mustGetwd(), dir); err == nil {
 		d = strings.ReplaceAll(d, rel+"/", "")
 	}
+	d = strings.ReplaceAll(d, dir+"/", "")
 	return d
 }
 
